@@ -578,6 +578,16 @@ def teeP (P : Progs) (st : St α) (i n : Nat) : Option (St α × Obs α) :=
     | .repeatOf _ _ => some (st, .err "unmodelled")           -- n times the same object: not an operation of the model
   else some (st, .err "unmodelled")
 
+/-- `lazy_itertools.tee(v, n)` on a non-iterable `v` as the program says: `v` is an instance of none of `Stream`,
+    `Iterator`, `Iterable` (any other class in the test: "unmodelled"), so the else arm runs:
+    `tuple(data for unused in xrange(n))` is `n` times `v` -/
+def teeScalarP (b : TeeBody) (v : α) (k : Nat) : Obs α :=
+  if b.test.1 == "data" && b.test.2.all (fun c => c == "Stream" || c == "Iterator" || c == "Iterable") then
+    match b.elseR with
+    | .repeatOf x n => if x == "data" && n == "n" then .items (List.replicate k v) else .err "unmodelled"
+    | .streamsOfTee _ _ => .err "TypeError"                  -- `it.tee` asks `iter(v)`
+  else .err "unmodelled"
+
 def stepP (P : Progs) (f : Nat) (st : St α) : Op α → Option (St α × Obs α)
   | .take i c =>
     match st.pool[i]? with
